@@ -28,10 +28,10 @@ def run(ctx):
     q = ctx.quick
     ctx.mc('syncer', 'HistoryBuffer', 'MC_HistoryBuffer.cfg', timeout=600)
     ctx.mc('syncer', 'RegionSync', 'MC_RegionSync.cfg', timeout=600)
-    seeds = [ctx.seed] if q else [ctx.seed + k for k in range(3)]
+    seeds = [ctx.seed] if q else [ctx.seed + k for k in range(6)]
     for sd in seeds:
         for cap, sim, tcfg in ((3, 'Sim_HistoryBuffer.cfg', 'Trace_HistoryBuffer.cfg'), (50, 'Sim_HistoryBuffer_50.cfg', 'Trace_HistoryBuffer_50.cfg')):
-            behs = ctx.simulate('syncer', 'HistoryBuffer', sim, num=25 if q else 100, depth=400, seed=sd)
+            behs = ctx.simulate('syncer', 'HistoryBuffer', sim, num=25 if q else 250, depth=400, seed=sd)
             bj = os.path.join(ctx.dir, 'behs.json')
             json.dump([[{'action': s['action'], 'args': s['args'], 'state': {}} for s in b] for b in behs], open(bj, 'w'))
             tr = os.path.join(ctx.dir, 'history_%d_%d.ndjson' % (cap, sd))
